@@ -117,6 +117,8 @@ type world struct {
 	// the tombstone check and the arrival of the response.
 	midFetch func()
 	mon      *monitor
+	// restarted: nodes rebuilt from disk during the current step
+	restarted map[int]bool
 }
 
 func (w *world) count(k string, n int64) { w.counts[k] += n }
